@@ -243,6 +243,77 @@ func structuralMutants(rng *rand.Rand, s []byte, checkSize int, contentLen int) 
 		return t
 	})
 	add("index-indicator", true, func(t []byte) []byte { t[l.index] = 1; return t })
+	// uvarint edge cases in the index (count / records re-encoded, index and footer re-sealed consistently):
+	// 11-byte encoding, 10-byte encoding whose last byte exceeds 1, values >= 2^63
+	huge := func(name string, enc []byte, which int) {
+		add(name, true, func(t []byte) []byte {
+			rs := indexRecords(t, l)
+			if len(rs) == 0 {
+				return nil
+			}
+			body := []byte{0}
+			tmp := make([]byte, 10)
+			if which == 0 {
+				body = append(body, enc...) // the record count itself
+			} else {
+				body = append(body, tmp[:binary.PutUvarint(tmp, uint64(len(rs)))]...)
+			}
+			for i, r := range rs {
+				if which == 1 && i == 0 {
+					body = append(body, enc...)
+				} else {
+					body = append(body, tmp[:binary.PutUvarint(tmp, r[0])]...)
+				}
+				if which == 2 && i == len(rs)-1 {
+					body = append(body, enc...)
+				} else {
+					body = append(body, tmp[:binary.PutUvarint(tmp, r[1])]...)
+				}
+			}
+			for len(body)%4 != 0 {
+				body = append(body, 0)
+			}
+			crc := make([]byte, 4)
+			binary.LittleEndian.PutUint32(crc, crc32.ChecksumIEEE(body))
+			idx := append(body, crc...)
+			u := append(append([]byte{}, t[:l.index]...), idx...)
+			foot := append([]byte{}, t[l.footer:]...)
+			binary.LittleEndian.PutUint32(foot[4:], uint32(len(idx)/4-1))
+			u = append(u, foot...)
+			reseal2(u, len(u)-12)
+			return u
+		})
+	}
+	over11 := []byte{0x80, 0x80, 0x80, 0x80, 0x80, 0x80, 0x80, 0x80, 0x80, 0x80, 0x01}
+	over10 := []byte{0xff, 0xff, 0xff, 0xff, 0xff, 0xff, 0xff, 0xff, 0xff, 0x02}
+	big63 := []byte{0x80, 0x80, 0x80, 0x80, 0x80, 0x80, 0x80, 0x80, 0x80, 0x01} // 2^63
+	for w, wn := range []string{"count", "unpadded", "uncompressed"} {
+		huge("index-uvarint-11-bytes-"+wn, over11, w)
+		huge("index-uvarint-overflow-"+wn, over10, w)
+		huge("index-uvarint-2^63-"+wn, big63, w)
+	}
+	// block header: declared compressed size 2^63 (header grows by 12 bytes; index record and sizes adjusted so
+	// that only the size field itself is wrong), reserved filter id
+	add("block-filter-id-reserved", true, func(t []byte) []byte {
+		enc := []byte{0x80, 0x80, 0x80, 0x80, 0x80, 0x80, 0x80, 0x80, 0x40} // 2^62: reserved range
+		if b.hdrLen != 12 || hasSizes {
+			return nil
+		}
+		// new header: size byte, flags, filter id (9 bytes), props size, dict code, padding to 16+4
+		h := []byte{0, t[b.hdr+1]}
+		h = append(h, enc...)
+		h = append(h, t[fo+1], t[fo+2])
+		for (len(h)+4)%4 != 0 {
+			h = append(h, 0)
+		}
+		h[0] = byte((len(h)+4)/4 - 1)
+		crc := make([]byte, 4)
+		binary.LittleEndian.PutUint32(crc, crc32.ChecksumIEEE(h))
+		h = append(h, crc...)
+		u := append(append([]byte{}, t[:b.hdr]...), h...)
+		u = append(u, t[b.hdr+b.hdrLen:]...)
+		return u
+	})
 	// a smaller (still valid) dictionary size code: legal iff every distance still fits; never "metadata"
 	add("block-dict-code-shrink", false, func(t []byte) []byte {
 		if t[fo+2] == 0 {
